@@ -125,14 +125,15 @@ theorem C10_equal_and_hash_equal (c : Case) (hwf : wf c = true) (hk : known c = 
       (model c).hashEqFresh = true ∧
       ((c.hashedBefore && c.mutate.isSome) = false → (model c).hashEqOrig = true)) := by
   obtain ⟨i0, x, f, y, W, R, hcx, hcf⟩ := run_of_wf hwf hk hl
-  obtain ⟨hk1, hk2, _, hk5, hk10a, hk10c, _⟩ := known_nil hk hl
+  obtain ⟨hk1, hk2, hk5, hoo, _⟩ := known_nil hk hl
   have I := inv_summarize c.chain
+  have hk10c := (inh_false I W.lastAttrs hoo).2
   rw [R.model]
   constructor
   · intro he
     exact doEq_T I R.hx R.ok.fields he
   · intro hg
-    obtain ⟨a, b, d, e, g⟩ := hash_facts I W hk1 hk2 hk5 hk10a hk10c hg R.hx R.hf hcx hcf R.ok
+    obtain ⟨a, b, d, e, g⟩ := hash_facts I W hk1 hk2 hk5 hk10c hg R.hx R.hf hcx hcf R.ok
     have hid : isIdentity (summarize c.chain) = false := by
       unfold hashGenerated at hg
       cases hh : (summarize c.chain).hash with
@@ -155,7 +156,7 @@ theorem C10_shallow_cache_consistent (c : Case) (hwf : wf c = true) (hk : known 
 
 /-- **C10_protocols**: whenever the class resolves a `__getstate__` (generated or its own), or no class of
     the chain has `__slots__`, every operation — copy, deepcopy, every pickle protocol — succeeds on an
-    instance whose fields are all set (known findings K4, K10a, K10c included: those lose data, they do not raise). -/
+    instance whose fields are all set (an opted-out class that inherits a base's pair included: that loses data, it does not raise). -/
 theorem C10_protocols (c : Case) (hwf : wf c = true) (hl : isLegacy c.op = false)
     (h : (summarize c.chain).gs ≠ .dflt ∨ c.chain.all (fun k => !k.slots) = true) :
     (model c).exc = none := by
@@ -244,12 +245,48 @@ theorem C10_default_reduction_fails_iff (c : Case) (hwf : wf c = true) (hl : isL
   | deepcopy => simp only; rw [hop] at key; exact key
   | pickle p => simp only; rw [hop] at key; exact key
 
-/-- **C10_K4_exact**: when the class resolves the generated pair of a base (names `ns`), the fields the base
-    knows come back and exactly the other fields are lost (unset on the result) — for copy, deepcopy and every
-    protocol that transports a state. -/
-theorem C10_K4_exact (s : Summary) (I : Inv s) (hok : s.ok = true) (op : Op) (x : Inst) (ns : List String)
+/-- **C10_own_pair_unless_opted_out** (the K4 / K10c repair): on every chain, the last class — if it is an
+    attrs class — resolves a `__getstate__`/`__setstate__` pair generated for a *base* only when it passed
+    `getstate_setstate=False` itself; otherwise the pair is its own (covering exactly its fields and its
+    `cache_hash`), the user's, or `object`'s. -/
+theorem C10_own_pair_unless_opted_out (chain : List Cls) (ns : List String) (ch own : Bool)
+    (hla : (summarize chain).lastAttrs = true) (hg : (summarize chain).gs = .gen ns ch own) :
+    (own = true ∧ ns = (summarize chain).names ∧ ch = (summarize chain).lastCache) ∨
+    (own = false ∧ (summarize chain).lastOptOut = true) := by
+  have I := inv_summarize chain
+  cases own with
+  | true => exact Or.inl ⟨rfl, I.gsOwn _ _ hg⟩
+  | false => exact Or.inr ⟨rfl, I.gsInherited hla _ _ hg⟩
+
+/-- **C10_generated_state_never_dropped** (the K10a repair): a hash-caching class's generated pair is always
+    exercised — with a generated pair over `ns` the operation goes through `__setstate__` (and its cache reset)
+    unless the protocol is 0/1, there are no names and the class does not cache. -/
+theorem C10_generated_state_never_dropped (s : Summary) (op : Op) (x y : Inst) (ns : List String)
+    (own : Bool) (hg : s.gs = .gen ns true own) (h : roundtrip s op x = .ok y) :
+    read s.layout y CACHE = some .none := by
+  unfold roundtrip at h
+  rw [hg] at h
+  simp only at h
+  cases hst : getstateGen s.layout x ns with
+  | none => rw [hst] at h; simp at h
+  | some st =>
+    rw [hst] at h
+    simp only [Bool.not_true, Bool.and_false, Bool.false_eq_true, if_false] at h
+    cases hy : setstateGen s.layout Inst.empty ns true (st.map (fun p => (p.1, transfer op p.2))) with
+    | none => rw [hy] at h; simp at h
+    | some y' =>
+      rw [hy] at h
+      simp only [Except.ok.injEq] at h
+      subst h
+      exact setstateGen_cache hy
+
+/-- **C10_inherited_pair_exact**: when a class resolves the generated pair of a base (names `ns`; after the
+    repair only by opting out), the fields the base knows come back and exactly the other fields are lost
+    (unset on the result) — for copy, deepcopy and every protocol that transports a state. -/
+theorem C10_inherited_pair_exact (s : Summary) (I : Inv s) (hok : s.ok = true) (op : Op) (x : Inst) (ns : List String)
     (cache own : Bool) (hg : s.gs = .gen ns cache own) (t : String → String)
-    (hx : ∀ n ∈ s.names, read s.layout x n = some (.tok (t n))) (hlow : (isLow op && ns.isEmpty) = false) :
+    (hx : ∀ n ∈ s.names, read s.layout x n = some (.tok (t n)))
+    (hlow : (isLow op && ns.isEmpty && !cache) = false) :
     ∃ y, roundtrip s op x = .ok y ∧
       ∀ n ∈ s.names, read s.layout y n = if n ∈ ns then read s.layout x n else none := by
   have hsub := I.gsSub _ _ _ hg
@@ -328,17 +365,19 @@ def plainSlotted (names : List String) : Cls :=
 def mk (chain : List Cls) (op : Op) (hashed : Bool := false) (mutate : Option String := none) : Case :=
   { chain := chain, op := op, hashedBefore := hashed, mutate := mutate, assignUnset := true }
 
-/-- K4: `A(slots; x) ← B(dict; y)`: `B` resolves `A`'s state methods, `y` is lost -/
+/-- former K4 (repaired): `A(slots; x) ← B(dict; y)`: `B` now gets its own state methods, `y` travels -/
 def k4Witness : Case := mk [slotCls [fX], dictCls [fY]] .copy
-/-- K10c: `A(slots; x) ← B(dict, frozen, cache_hash)`: `A.__setstate__` does not create `B`'s hash cache -/
+/-- former K10c (repaired): `A(slots; x) ← B(dict, frozen, cache_hash)`: `B`'s own `__setstate__` resets its cache -/
 def k10cWitness : Case := mk [slotCls [fX], { dictCls [] with frozen := true, cacheHash := true }] .deepcopy
 /-- K5: dict caching class, hashed, `x` changed, `copy.copy` -/
 def k5Witness : Case := mk [{ dictCls [fX] with unsafeHash := true, cacheHash := true }] .copy true (some "x")
 /-- K11: slotted class with `getstate_setstate=False`, protocol 0 -/
 def k11Witness : Case := mk [{ slotCls [fX] with gs := .f }] (.pickle 0)
+/-- K11, second form: `A(slots; x) ← B(dict, getstate_setstate=False; y)` inherits `A`'s pair, `y` is lost -/
+def k11InheritWitness : Case := mk [slotCls [fX], { dictCls [fY] with gs := .f }] .copy
 /-- K11, frozen: every copy raises FrozenInstanceError -/
 def k11FrozenWitness : Case := mk [{ slotCls [fX] with gs := .f, frozen := true }] .copy
-/-- K10a: empty slotted frozen caching class, protocol 1 -/
+/-- former K10a (repaired): empty slotted frozen caching class, protocol 1 -/
 def k10aWitness : Case := mk [{ slotCls [] with frozen := true, cacheHash := true }] (.pickle 1)
 /-- K10b: dict attrs class below a plain class with `__slots__ = ("p",)`, protocol 1 -/
 def k10bWitness : Case := mk [plainSlotted ["p"], dictCls [fX]] (.pickle 1)
@@ -350,13 +389,23 @@ def k2Witness : Case :=
   mk [{ slotCls [fX] with frozen := true, cacheHash := true }, { dictCls [] with frozen := true, cacheHash := true }]
     (.pickle 2)
 
-theorem C10_known_K4_witness :
-    wf k4Witness = true ∧ known k4Witness = ["K4"] ∧ spec k4Witness (model k4Witness) = false := by
-  refine ⟨by decide, by decide, by decide⟩
+/-- regression (was K4): the fields of a dict class below a slotted class all come back -/
+theorem C10_fixed_K4_regression :
+    wf k4Witness = true ∧ known k4Witness = [] ∧ spec k4Witness (model k4Witness) = true ∧
+    (model k4Witness).fields = [("x", some "v_x"), ("y", some "v_y")] := by
+  refine ⟨by decide, by decide, by decide, by decide⟩
 
-theorem C10_known_K10c_witness :
-    wf k10cWitness = true ∧ known k10cWitness = ["K10c"] ∧ spec k10cWitness (model k10cWitness) = false := by
-  refine ⟨by decide, by decide, by decide⟩
+/-- regression (was K10c): the copy of a caching dict class below a non-caching slotted class is hashable -/
+theorem C10_fixed_K10c_regression :
+    wf k10cWitness = true ∧ known k10cWitness = [] ∧ spec k10cWitness (model k10cWitness) = true ∧
+    (model k10cWitness).hashCopy = .ok := by
+  refine ⟨by decide, by decide, by decide, by decide⟩
+
+/-- regression (was K10a): an empty caching class unpickled at protocol 1 is hashable -/
+theorem C10_fixed_K10a_regression :
+    wf k10aWitness = true ∧ known k10aWitness = [] ∧ spec k10aWitness (model k10aWitness) = true ∧
+    (model k10aWitness).hashCopy = .ok ∧ (model k10aWitness).cacheAfter = .isNone := by
+  refine ⟨by decide, by decide, by decide, by decide, by decide⟩
 
 theorem C10_known_K5_witness :
     wf k5Witness = true ∧ known k5Witness = ["K5"] ∧ spec k5Witness (model k5Witness) = false := by
@@ -366,13 +415,10 @@ theorem C10_known_K11_witness :
     wf k11Witness = true ∧ known k11Witness = ["K11"] ∧ spec k11Witness (model k11Witness) = false ∧
     (model k11Witness).exc = some .typeError ∧
     wf k11FrozenWitness = true ∧ known k11FrozenWitness = ["K11"] ∧
-    (model k11FrozenWitness).exc = some .frozenInstance := by
-  refine ⟨by decide, by decide, by decide, by decide, by decide, by decide, by decide⟩
-
-theorem C10_known_K10a_witness :
-    wf k10aWitness = true ∧ known k10aWitness = ["K10a"] ∧ spec k10aWitness (model k10aWitness) = false ∧
-    (model k10aWitness).hashCopy = .attributeError := by
-  refine ⟨by decide, by decide, by decide, by decide⟩
+    (model k11FrozenWitness).exc = some .frozenInstance ∧
+    wf k11InheritWitness = true ∧ known k11InheritWitness = ["K11"] ∧
+    spec k11InheritWitness (model k11InheritWitness) = false := by
+  refine ⟨by decide, by decide, by decide, by decide, by decide, by decide, by decide, by decide, by decide, by decide⟩
 
 theorem C10_known_K10b_witness :
     wf k10bWitness = true ∧ known k10bWitness = ["K10b"] ∧ spec k10bWitness (model k10bWitness) = false := by
